@@ -157,6 +157,12 @@ class Tracker:
                         self.viol.append(("C12", f"id-less ERROR {fget(f, 'reason')} on a connection that stays open (conn {k})", t))
                 if v["closed"]:
                     closed_at[k] = t
+            # ---- C12: a pure listing request produces traffic for nobody but its sender, so whatever happens the sender sees
+            #      its reply or an ERROR: never a connection that simply ends
+            if sent and k0 in users_before and all(kind in ("CHANNELS", "MEMBERS", "GET_CHAN_ACL", "GET_CHAN_CONFIG") and "id" in params
+                                                   for (kind, params, pl) in sent) \
+                    and len(sent) <= self.case["cfg"]["max_inflight"] and recv.get(k0, {}).get("closed") and not recv[k0]["frames"]:
+                self.viol.append(("C12", f"conn {k0} sent {[kind for kind, _, _ in sent]} and was closed without any reply or ERROR frame", t))
             # ---- effects acknowledged in this op
             for (kind, params, pl) in sent:
                 if "id" not in params:
